@@ -13,6 +13,7 @@
 //! canonical reply that the model must reproduce.
 mod common;
 mod c20;
+mod serdeh;
 mod mapped;
 mod canon;
 mod ueq;
@@ -40,6 +41,7 @@ pub fn exec_line(line: &str, out: &mut Out) {
         "ueq" => ueq::exec(rest, out),
         "canon" => canon::exec(rest, out),
         "mapped" => mapped::exec(rest, out),
+        "serde" => serdeh::exec(rest, out),
         _ => ("bad-op".to_string(), false),
     }));
     match r {
@@ -92,6 +94,9 @@ fn real_main() {
             "C14" => ord::gen(&mut out, thorough),
             "C15" => ueq::gen(&mut out, thorough),
             "C11" => mapped::gen(&mut out, thorough),
+            "C16" => serdeh::gen(&mut out, thorough, "C16"),
+            "C17" => serdeh::gen(&mut out, thorough, "C17"),
+            "C18" => serdeh::gen(&mut out, thorough, "C18"),
             "C09" => canon::gen(&mut out, thorough),
             "C10" => canon::gen(&mut out, thorough),
             "C04" => print::gen(&mut out, thorough, "C04"),
